@@ -681,6 +681,8 @@ def run_real(case: dict) -> Outcome:
                         arr.frombytes(data[: chunk - chunk % 8])
                         data = memoryview(arr)
                     elif case.get("view") == "2D" and case.get("api") != "iterable":
+                        # (preceded by the same kind of view sliced to zero rows: an empty chunk like any other)
+                        await transport.send_all(memoryview(bytearray(8)).cast("B", [2, 4])[0:0])
                         # contiguous bytes with two dimensions (an image, a ctypes 2-D array): len() counts rows
                         data = memoryview(data[: chunk - chunk % 1024]).cast("B", shape=[(chunk - chunk % 1024) // 1024, 1024])
                     if case.get("api") == "iterable":
